@@ -165,8 +165,41 @@ def ordinary(case) -> bool:
     return case.get("ordinary", False)
 
 
+def ctor_oracle(case: dict):
+    """construction from a mapping / pairs / an iterator of pairs together with keywords, against dict(arg, **kwargs)"""
+    dictIO = _impl()
+    data, kw = case["data"], case["kw"]
+    for how in ("mapping", "pairs", "iterator", "keywords-only", "sdict"):
+        if how == "mapping":
+            mk = lambda cls: cls(copy.deepcopy(data), **copy.deepcopy(kw))  # noqa: E731
+        elif how == "pairs":
+            mk = lambda cls: cls(list(copy.deepcopy(data).items()), **copy.deepcopy(kw))  # noqa: E731
+        elif how == "iterator":
+            mk = lambda cls: cls(iter(list(copy.deepcopy(data).items())), **copy.deepcopy(kw))  # noqa: E731
+        elif how == "sdict":
+            mk = lambda cls: cls(dictIO.SDict(copy.deepcopy(data)), **copy.deepcopy(kw))  # noqa: E731
+        else:
+            mk = lambda cls: cls(**copy.deepcopy(kw))  # noqa: E731
+        want = mk(dict)
+        try:
+            got = mk(dictIO.SDict)
+        except TypeError as e:
+            if how == "keywords-only":
+                continue        # SDict(m=1) binds a keyword to update()'s parameter on the unchanged tree: not claimed
+            return ("ctor-raises", f"SDict({how}, **{kw!r}) raised TypeError: {e}")
+        except Exception as e:  # noqa: BLE001
+            return ("ctor-raises", f"SDict({how}, **{kw!r}) raised {type(e).__name__}: {e}")
+        if not isinstance(got, dictIO.SDict):
+            return ("not-sdict", f"SDict({how}, **kw) returned {type(got).__name__}")
+        if list(got) != list(want) or not gen.typed_eq(gen.plain(dict(got)), want):
+            return ("ctor-differs", f"SDict({how} of {data!r}, **{kw!r}) holds {gen.plain(dict(got))!r} (keys {list(got)!r}), dict gives {want!r} (keys {list(want)!r})")
+    return None
+
+
 def oracle(case: dict):
     """lock-step with a builtin dict (ordinary histories); merge laws; argument not modified"""
+    if case.get("kind") == "ctor":
+        return ctor_oracle(case)
     dictIO = _impl()
     s = mk_sdict(case["init"])
     d = copy.deepcopy(case["init"]["data"])
@@ -243,6 +276,8 @@ def oracle(case: dict):
 
 
 def shrink(case):
+    if case.get("kind") == "ctor":
+        return
     ops = case["ops"]
     for i in range(len(ops)):
         c = dict(case)
@@ -433,5 +468,14 @@ def run(ctx):
                               "ops": list(ops), "ordinary": True, "placeholders": False})
         ctx.extra["exhaustive_part"] = "every history of length <= 3 over a 12-op alphabet"
     run_histories(ctx, cases)
+    # construction with keywords (oracle only: the model's constructor takes one mapping)
+    for i in range(ctx.n(120, 3000)):
+        data = {k: v for k, v in small_tree(rng).items()}
+        kw = {k: rng.choice([leaf_nodollar(rng), small_tree(rng, 2), [1, 2]]) for k in rng.sample(["a", "b", "c", "d", "sub", "x1", "zz"], rng.randrange(1, 4))}
+        c = {"kind": "ctor", "data": data, "kw": kw}
+        r = oracle(c)
+        if r:
+            ctx.oracle_fail(c, r[0], r[1])
+        ctx.count(("k", repr(c)), bool(set(kw) & set(data)), "ctor-keywords")
     if ctx.classes["ordinary"] == 0 or ctx.classes["placeholders"] == 0:
         raise RuntimeError("generator starved")
